@@ -152,6 +152,36 @@ def run(chk):
             chk.disagree(c[:800], a[:500], b[:500], "codegen")
     chk.sample(dict(case=cases[0][:300], impl=ci[0][:300], model=cm[0][:300]))
     chk.sample(dict(case=cases[-1][:300], impl=ci[-1][:300], model=cm[-1][:300]))
+    # messages that encode to nothing (bincode: unit, field-less struct) or next to nothing (json: null, {}, []; empty vector):
+    # the handler is invoked once and its response comes back, with its headers
+    tiny = []
+    for i in range(3 if quick else 20):
+        calls = []
+        for _ in range(chk.rng.randrange(3, 12)):
+            m = chk.rng.choice(["UnitBin", "UnitJson", "EmptyBin", "EmptyJson", "VecBin", "VecJson"])
+            v = chk.rng.choice(["-", "-", "00", "05", "0102", "ff" * 40]) if m.startswith("Vec") else None
+            calls.append("tiny:%s%s" % (m, ":" + v if v else ""))
+        if i == 0:
+            calls = ["tiny:UnitBin", "tiny:UnitJson", "tiny:EmptyBin", "tiny:EmptyJson", "tiny:VecBin:-", "tiny:VecJson:-", "tiny:VecBin:0102", "tiny:VecJson:05"]
+        tiny.append("typed " + " ".join(calls))
+    for c, a in zip(tiny, run_impl("codegen", tiny, shards=1)):
+        chk.evaluations += 1
+        chk.nontriv(c)
+        calls = c.split()[1:]
+        if a.startswith(("PANIC", "CRASH", "TIMEOUT", "HANG")) or " | " not in a:
+            chk.monitor_fail("a typed call with a tiny message panicked", dict(case=c, impl=a[:300]))
+            continue
+        outs, log = a.split(" | ")
+        outs, log = outs.split(), ([] if log == "-" else log.split())
+        for call, o in zip(calls, outs):
+            f = call.split(":")
+            body = "()" if f[1].startswith("Unit") else "Empty" if f[1].startswith("Empty") else "[%s]" % ",".join(str(x) for x in bytes.fromhex(f[2].replace("-", "")))
+            chk.count("tiny-message:" + f[1])
+            if not o.startswith("ok:%s:200:" % body) or "done=31" not in o:
+                chk.monitor_fail("typed call %s: the handler answered Ok(%s) with a header, the caller got %s" % (f[1], body, o[:120]), dict(case=c, impl=a[:400]))
+                break
+        if log != ["Gamma." + call.split(":")[1] for call in calls]:
+            chk.monitor_fail("tiny-message calls %s reached the handlers %s" % ([x.split(":")[1] for x in calls], log), dict(case=c, impl=a[:400]))
     chk.assumptions += ["serde_json / bincode message codecs are assumed to round-trip (Section hypotheses dec_enc_q / dec_enc_r of the typed-call theorems)",
                         "texts of framework-generated errors (codec failures) are not modelled: they are canonicalised to '*' before comparison"]
     if not quick:
